@@ -88,6 +88,16 @@ def families(tier):
         main = [('disp', 'B', 'Y1', 'ff'), ('burst', 'B', 'X', 60), ('disp', 'B', 'Q', 'ff'), ('pause',), ('idle', 'B'), ('redisp', 'A', 'Q'), ('idle', 'A'), ('idle', 'B')]
         out.append(dict(prop='C14', family='c14.reject_then_forward', id=f'c14/rejfwd-h{hist}', cfg=cfg, params=dict(K=60, hist=hist, src='main', reoffer=False, expect_forward='Q'),
                         scn=dict(buses={'A': dict(hist=hist), 'B': dict(hist=hist)}, order=['A', 'B'], handlers=hs, main=main, actors=[], forwards=[('A', 'B')], settle=3.0, no_watch=True)))
+    # a second bus with a history smaller than its backlog (pending events are evicted from history while still queued) waits for the lock held by a handler of the first bus
+    for histB, k, hshape in itertools.product((1, 2), (3, 5), ('pause', 'aw_child_B')):
+        hp = [('pause',), ('pause',)] if hshape == 'pause' else [('disp', 'B', 'C', 'await'), ('pause',)]
+        hs = [dict(bus='A', pat='P', name='hp', prog=hp), dict(bus='B', pat='X', name='hxB', prog=[('ret', 1)], kind='sync'), dict(bus='B', pat='C', name='hcB', prog=[('pause',)]),
+              dict(bus='B', pat='Y', name='hyB', prog=[('ret', 0)])]
+        main = [('disp', 'B', 'Y0', 'await'), ('disp', 'A', 'P', 'ff'), ('pause',), ('burst', 'B', 'X', k), ('pause',), ('idle', 'A'), ('idle', 'B')]
+        for order in (['A', 'B'], ['B', 'A']):
+            out.append(dict(prop='C14', family='c14.evicted_while_queued', id=f'c14/evq-h{histB}-k{k}-{hshape}-o{"".join(order)}', cfg=dict(cfg, busy=True, bound=2, cap=1500),
+                            params=dict(K=k, hist=histB, src='main', reoffer=False),
+                            scn=dict(buses={'A': {}, 'B': dict(hist=histB)}, order=order, handlers=hs, main=main, actors=[], forwards=[], settle=3.0, no_watch=True)))
     # the capacity boundary raced by an external dispatcher: its dispatches land between any two steps of the handlers (busy choice points on)
     for hist, src in itertools.product((5, 50), ('main', 'async')):
         hs = [dict(bus='A', pat='X', name='hx', prog=[('ret', 1)], kind='sync'), dict(bus='A', pat='Y', name='hy', prog=[('pause',)])]
@@ -107,6 +117,8 @@ def trigger(spec, res):
     if spec.get('mode') == 'noloop':
         return True
     n_rej = sum(1 for r in res['log'] if r[2] == 'dispatch' and r[6].startswith('raised'))
+    if spec['family'].endswith('evicted_while_queued'):
+        return (spec['params']['hist'] or 99) < spec['params']['K']  # the backlog exceeds the history: pending events get evicted while queued
     return n_rej > 0 or spec['params']['K'] >= 50
 
 
